@@ -1,6 +1,7 @@
 package main
 
 import (
+	"runtime"
 	"bytes"
 	"context"
 	"fmt"
@@ -113,9 +114,25 @@ var solvers = []solverCfg{
 	{"cvc5/enum", func(f string, t int) []string {
 		return []string{"cvc5", "--incremental", "--enum-inst", fmt.Sprintf("--tlimit=%d", t*1000), f}
 	}, true},
+	// definitional axioms of opaque defines expanded as macros (unfolding steps that e-matching does not find)
+	{"z3-new/macro", func(f string, t int) []string {
+		return []string{"z3-new", fmt.Sprintf("-T:%d", t), "smt.macro_finder=true", f}
+	}, false},
 }
 
+var macroSolver = 6
+
+// solverSem bounds the number of solver processes running at once: a time-out is CPU time only if the process has
+// a core to itself (stage 2 races some twenty variants per obligation)
+var solverSem = make(chan struct{}, max(4, runtime.NumCPU()))
+
 func runSolver(ctx context.Context, sc solverCfg, file string, timeoutS int) (status, out string, ms int64) {
+	select {
+	case solverSem <- struct{}{}:
+		defer func() { <-solverSem }()
+	case <-ctx.Done():
+		return "unknown", "cancelled", 0
+	}
 	args := sc.args(file, timeoutS)
 	cctx, cancel := context.WithTimeout(ctx, time.Duration(timeoutS+2)*time.Second)
 	defer cancel()
@@ -162,6 +179,17 @@ func (u *Universe) Solve(o *Obligation, dir string, timeoutS int, thorough bool)
 	if o.Cover {
 		// vacuity probes only need "not unsat": a short single run is enough
 		st, out, ms := runSolver(context.Background(), solvers[0], fz, 2)
+		if st == "unsat" && o.PreFacts != nil {
+			// the path may have been dead before the call: then the call is not to blame
+			n := *o
+			n.Facts = o.PreFacts
+			fp := base + ".pre.smt2"
+			os.WriteFile(fp, []byte(u.smtText(&n, false, false)), 0o644)
+			if st2, _, ms2 := runSolver(context.Background(), solvers[0], fp, 5); st2 == "unsat" {
+				st, out = "unknown", "dead path before the call"
+				ms += ms2
+			}
+		}
 		res.Status, res.Backend, res.Ms, res.Output = st, "z3-new", ms, out
 		return res
 	}
@@ -259,6 +287,10 @@ func (u *Universe) Solve(o *Obligation, dir string, timeoutS int, thorough bool)
 					seenAx[m] = true
 					n.Facts = append(n.Facts, f)
 				}
+			} else if !strings.Contains(f, "(forall ") && !strings.Contains(f, "(exists ") && len(f) < 400 {
+				// small ground facts (allocation order, path conditions) cost nothing and are often needed to
+				// identify two readings of the same location
+				n.Facts = append(n.Facts, f)
 			}
 		}
 		n.Facts = append(n.Facts, tail...)
@@ -266,6 +298,9 @@ func (u *Universe) Solve(o *Obligation, dir string, timeoutS int, thorough bool)
 		fs := fmt.Sprintf("%s.tail%d.smt2", base, k)
 		os.WriteFile(fs, []byte(u.smtText(&n, false, false)), 0o644)
 		variants = append(variants, variant{solvers[0], fs, fmt.Sprintf("z3-new/slice-tail%d", k)})
+		if len(need) > 0 {
+			variants = append(variants, variant{solvers[macroSolver], fs, fmt.Sprintf("z3-new/macro/slice-tail%d", k)})
+		}
 	}
 	type ans struct {
 		name, st, out string
